@@ -35,6 +35,18 @@ LEVEL_NOTE = ("Trusted: Coq kernel; the hand-written model coq/C19/Encoders.v (v
               "rounding (refrac/dt just below an integer), statistical properties (rates), generator-state reproducibility "
               "(oracle only). Known defect modelled as coded: the online exp-interval encoder raises unless every element "
               "spikes or there is a single element (theorem exp_online_shape_refuted).")
+EXPLANATION = ("Every encoder is modelled as a function of the sampled values (exponential / Poisson / uniform draws are inputs), so "
+               "'for all generator seeds' becomes 'for all draw lists' and is proved by induction / order arguments in Coq: shape "
+               "(steps rows, time first, input size), silence at zero intensity (period +inf -> index `steps`, cut off; masked "
+               "out; probability 0), minimum gap floor(refrac/dt) and at-most-once-per-window for the refractory Poisson encoder "
+               "offline (sorted cumulative times, floor(c + d) - floor(c) >= floor(d)) and online (countdown invariant), rate "
+               "limit, exact spike-time characterisations (floor of partial sums; countdown waits), and the two defects as "
+               "theorems (online encoder completes only if all elements fire; gap fails outside frequency*refrac < 1000 which "
+               "the constructor accepts).  The model is run inside Coq on the draws replayed from the real encoders and must "
+               "reproduce their spike tensors exactly; the direct oracle evaluates the property on the real outputs.")
+TRUSTED = ["C19: replay of the encoders' sampler calls on a second identically seeded torch.Generator (tools/impl/c19_impl.py) - if the "
+           "implementation changes its sampling calls the correspondence breaks and the direct oracle takes over",
+           "C19: torch samplers' ranges: exponential_ > 0, poisson >= 0 and integral (0 at rate 0), bernoulli(p) fires iff u < p for u in [0,1)"]
 ASSUMES = ["torch.Tensor.exponential_ returns strictly positive samples; torch.poisson returns integral samples, 0 at rate 0",
            "inputs are nonnegative and finite; +0.0 only (a -0.0 intensity is reported separately by the oracle)"]
 HEADER = ("From Coq Require Import List ZArith Bool Floats.\n"
@@ -432,9 +444,14 @@ def load_corpus():
     return out
 
 
+PROBES: dict = {}
+
+
 def evaluate(cases):
     """runs implementation, model, Bernoulli replay; returns per-case (impl, model, bern_out)"""
-    impl = F.run_impl(IMPL, {"cases": cases})
+    impl = F.run_impl(IMPL, {"cases": cases, "probes": True})
+    PROBES.clear()
+    PROBES.update(impl.pop()["probes"])
     model = F.eval_terms(ID, HEADER, [q_case(c, r) for c, r in zip(cases, impl)], shard=40)
     bcases, bidx = [], []
     for i, (c, m) in enumerate(zip(cases, model)):
@@ -460,7 +477,7 @@ def evaluate(cases):
 
 def run(ctx):
     rng = random.Random(ctx["seed"])
-    n = 360 if ctx["tier"] == "quick" else 6000
+    n = 700 if ctx["tier"] == "quick" else 8000
     cases = load_corpus() + gen_cases(rng, n)
     if ctx["tier"] == "thorough":
         cases += exhaustive_cases()
@@ -469,7 +486,13 @@ def run(ctx):
     repaired = 0
     spikes_total = 0
     gaps_checked = 0
+    last_step = [0, 0]      # poisson_interval offline: active elements / of which fire at the last step
     for c, r, m, b in zip(cases, impl, model, bout):
+        if c["kind"] in ("pie", "f_pint") and not c["online"] and r["status"] == "ok" and r["out"]:
+            for j, rate in enumerate(rates(c)):
+                if rate > 0:
+                    last_step[0] += 1
+                    last_step[1] += int(r["out"][-1][j])
         spikes_total += sum(sum(row) for row in r["out"])
         if c["kind"] in ("hpe", "f_exp") and r["status"] == "ok" and in_domain(c) and config_valid(c):
             for j in range(nel(c["shape"])):
@@ -513,6 +536,12 @@ def run(ctx):
         "impl_status": dict(Counter(r["status"] if r["status"] == "ok" else "raised:%s" % r["exc"] for r in impl)),
         "spikes_observed": spikes_total, "refractory_gaps_checked": gaps_checked,
         "online_exp_cases_matching_elementwise_reading_only": repaired,
+        "side_observations": {
+            "poisson_interval_offline_active_elements": last_step[0],
+            "poisson_interval_offline_active_elements_firing_at_last_step": last_step[1],
+            "note": "theorem pie_offline_last_step_always_fires: overflowing cumulative times are clamped onto the last kept "
+                    "row, so every active element fires at the last step (not part of the C19 statement)",
+            "encoder_class_probes": dict(PROBES)},
         "oracle_failure_kinds": dict(Counter(f["signature"]["kind"] for f in oracle_fail)),
         "samples": cases[:2],
         "mismatches": mismatches, "oracle_failures": oracle_fail,
@@ -520,14 +549,9 @@ def run(ctx):
     }
 
 
-def _fails_like(case, kind):
-    r = F.run_impl(IMPL, {"cases": [case]})[0]
-    fs = [f for f in oracle(case, r) if f["signature"]["kind"] == kind]
-    return fs[0] if fs else None
-
-
 def minimise(case):
-    """shrink a failing case: fewer elements, fewer steps (keeps the kind of failure)"""
+    """shrink a failing case: fewer elements, fewer steps (keeps the kind of failure); one implementation
+    subprocess per round"""
     r = F.run_impl(IMPL, {"cases": [case]})[0]
     fs = oracle(case, r)
     if not fs:
@@ -536,23 +560,27 @@ def minimise(case):
     best, detail = case, fs[0]
     if case["kind"] == "f_inhomog":
         return best, detail["detail"]
-    changed = True
-    while changed:
-        changed = False
+    for _ in range(12):
         n = nel(best["shape"])
         cands = []
         if n > 1:
             for j in range(n):
-                x = best["x"][:j] + best["x"][j + 1:]
-                cands.append(dict(best, shape=[n - 1], x=x))
-        for s in (best["steps"] // 2, best["steps"] - 1):
+                cands.append(dict(best, shape=[n - 1], x=best["x"][:j] + best["x"][j + 1:]))
+        for s in (1, 2, best["steps"] // 2, best["steps"] - 1):
             if 1 <= s < best["steps"]:
                 cands.append(dict(best, steps=s))
-        for cnd in cands:
-            f = _fails_like(cnd, kind)
-            if f is not None:
-                best, detail, changed = cnd, f, True
+        if not cands:
+            break
+        rs = F.run_impl(IMPL, {"cases": cands})
+        nxt = None
+        for cnd, rr in zip(cands, rs):
+            f = [f for f in oracle(cnd, rr) if f["signature"]["kind"] == kind]
+            if f:
+                nxt = (cnd, f[0])
                 break
+        if nxt is None:
+            break
+        best, detail = nxt
     return best, detail["detail"]
 
 
